@@ -88,19 +88,17 @@ theorem seqRel_idxOp (g : Graph) (op : C04.Op Str) : SeqRel g (g.idxOp op) := by
 theorem seqRel_onRsEvent (g : Graph) (e : RsEvent) : SeqRel g (g.onRsEvent e) := by
   cases e with
   | ipsetActive uid d => exact (seqRel_emit _ _).trans (seqRel_idxOp _ _)
-  | ipsetInactive uid => exact seqRel_idxOp _ _
+  | ipsetInactive uid => exact (seqRel_idxOp _ _).trans (seqRel_emit _ _)
+
+theorem seqRel_rsUpdate (H : IdFn) (g : Graph) (key : RulesId) (r : Option RulesIn) :
+    SeqRel g (g.rsUpdate H key r) := by
+  unfold Graph.rsUpdate
+  simp only []
+  exact SeqRel.trans (SeqRel.refl' rfl rfl) (seqRel_foldl Graph.onRsEvent seqRel_onRsEvent _ _)
 
 theorem seqRel_scanRules (H : IdFn) (g : Graph) (key : RulesId) (r : Option RulesIn) :
-    SeqRel g (g.scanRules H key r) := by
-  unfold Graph.scanRules
-  simp only []
-  have h1 : SeqRel g (List.foldl Graph.onRsEvent { g with rs := (g.rs.updateRules key (match r with
-      | some r => currentSets H r
-      | none => [])).1 } (g.rs.updateRules key (match r with
-      | some r => currentSets H r
-      | none => [])).2) :=
-    (SeqRel.refl' rfl rfl).trans (seqRel_foldl _ seqRel_onRsEvent _ _)
-  cases key <;> cases r <;> exact h1.trans (seqRel_emit _ _)
+    SeqRel g (g.scanRules H key r) :=
+  (seqRel_rsUpdate H g key r).trans (seqRel_emit _ _)
 
 theorem seqRel_profEvents (H : IdFn) (g : Graph) (evs : List (C05.Event RulesIn)) :
     SeqRel g (g.profEvents H evs) := by
